@@ -631,6 +631,19 @@ func genL3(r *vlib.R, tier string, emit func(string)) {
 	}
 	// the same on a VALIDATING resolver: signed root and test., victim.test. signed and secure,
 	// evil.test. delegated insecurely (no DS, NSEC proof) - a CD=0 client, so the signed path is taken
+	// pooled TCP connections (tcpkeepalive = true)
+	flavour = "plain+ka"
+	for _, mode := range []string{"cold", "warm"} {
+		shapes := shuffled()
+		for len(shapes) > 0 {
+			n := 4 + r.Intn(4)
+			if n > len(shapes) {
+				n = len(shapes)
+			}
+			world(mode, vlib.Pick(r, []int{0, 3}), shapes[:n])
+			shapes = shapes[n:]
+		}
+	}
 	flavour = "sec"
 	for _, mode := range []string{"cold", "warm"} {
 		shapes := shuffled()
@@ -651,7 +664,7 @@ func genL3(r *vlib.R, tier string, emit func(string)) {
 	}
 	for i := 0; i < rounds; i++ {
 		for _, s := range shuffled() {
-			flavour = vlib.Pick(r, []string{"plain", "plain", "sec"})
+			flavour = vlib.Pick(r, []string{"plain", "plain", "sec", "plain+ka", "sec+ka"})
 			world(vlib.Pick(r, []string{"cold", "warm"}), vlib.Pick(r, []int{0, 3, 3, 5}), []string{s})
 		}
 	}
